@@ -990,24 +990,24 @@ Context {C : Type}.
 Variable cb : C -> bytes -> C * Z.
 Hypothesis cb_ok : forall c p, snd (cb c p) <= Z.of_nat (length p).
 
-Lemma api_run_app : forall fc bs l1 l2 (a : @api C),
-  api_run cb fc bs a (l1 ++ l2) =
-  let '(a1, r1) := api_run cb fc bs a l1 in
-  let '(a2, r2) := api_run cb fc bs a1 l2 in (a2, r1 ++ r2).
+Lemma api_run_app : forall fm bs l1 l2 (a : @api C),
+  api_run cb fm bs a (l1 ++ l2) =
+  let '(a1, r1) := api_run cb fm bs a l1 in
+  let '(a2, r2) := api_run cb fm bs a1 l2 in (a2, r1 ++ r2).
 Proof.
-  intros fc bs. induction l1 as [|o l1 IH]; intros l2 a.
-  - cbn [app api_run]. destruct (api_run cb fc bs a l2). reflexivity.
-  - cbn [app api_run]. destruct (api_step cb fc bs a o) as [[a1 tr] st]. rewrite IH.
-    destruct (api_run cb fc bs a1 l1) as [a2 r1]. destruct (api_run cb fc bs a2 l2) as [a3 r2]. reflexivity.
+  intros fm bs. induction l1 as [|o l1 IH]; intros l2 a.
+  - cbn [app api_run]. destruct (api_run cb fm bs a l2). reflexivity.
+  - cbn [app api_run]. destruct (api_step cb fm bs a o) as [[a1 tr] st]. rewrite IH.
+    destruct (api_run cb fm bs a1 l1) as [a2 r1]. destruct (api_run cb fm bs a2 l2) as [a3 r2]. reflexivity.
 Qed.
 
-Lemma api_run_data : forall fc chunks bs buf c bibl e k l buf' c' res,
+Lemma api_run_data : forall fm chunks bs buf c bibl e k l buf' c' res,
   writes cb bs buf c chunks = (buf', c', res) ->
   exists results,
-    api_run cb fc bs (mkApi SData true buf bibl e k l c) (map OData chunks) =
+    api_run cb fm bs (mkApi SData true buf bibl e k l c) (map OData chunks) =
       (mkApi SData true buf' bibl e k l c', results) /\ map view results = res.
 Proof.
-  intros fc. induction chunks as [|d ds IH]; intros bs buf c bibl e k l buf' c' res H; cbn [writes] in H.
+  intros fm. induction chunks as [|d ds IH]; intros bs buf c bibl e k l buf' c' res H; cbn [writes] in H.
   - inversion H; subst. exists []. split; reflexivity.
   - destruct (filter_write cb bs buf c d) as [[[buf1 c1] tr] st] eqn:Ef.
     destruct (writes cb bs buf1 c1 ds) as [[buf2 c2] res2] eqn:Ew.
@@ -1020,19 +1020,19 @@ Proof.
     + reflexivity.
 Qed.
 
-Theorem api_session : forall fc bs bibl c chunks c' res,
+Theorem api_session : forall fm bs bibl c chunks c' res,
   session cb bs bibl c chunks = (c', res) ->
   exists a' results,
-    api_run cb fc bs (fst (api_open bibl ARCHIVE_OK false c))
+    api_run cb fm bs (fst (api_open bibl ARCHIVE_OK false c))
             (OHeader :: map OData chunks ++ [OClose; OFree]) = (a', results) /\
     map view results = ([], ARCHIVE_OK) :: res ++ [([], ARCHIVE_OK)] /\
     a_cb a' = c' /\ a_closer a' = 1%nat /\ a_leaked a' = false /\ a_state a' = SClosed.
 Proof.
-  intros fc bs bibl c chunks c' res H. unfold session in H.
+  intros fm bs bibl c chunks c' res H. unfold session in H.
   destruct (writes cb bs [] c chunks) as [[buf c1] res1] eqn:Ew.
   destruct (client_close cb bs bibl buf c1) as [[c2 tr] st] eqn:Ec.
   inversion H; subst c' res. clear H.
-  destruct (api_run_data fc _ _ _ _ bibl 1%nat 0%nat false _ _ _ Ew) as (results & R & V).
+  destruct (api_run_data fm _ _ _ _ bibl 1%nat 0%nat false _ _ _ Ew) as (results & R & V).
   assert (Eo : api_open bibl ARCHIVE_OK false c = (mkApi SHeader true [] bibl 0 0 false c, ARCHIVE_OK))
     by reflexivity.
   rewrite Eo. cbn [fst].
@@ -1135,12 +1135,13 @@ Ltac api_case H :=
   repeat match type of H with
   | context [if ?b then _ else _] => destruct b eqn:?
   | context [match ?x with (_, _) => _ end] => destruct x eqn:?
+  | context [match ?x with FreeSkips => _ | _ => _ end] => destruct x eqn:?
   end.
 
-Lemma api_step_Ainv : forall {C} (cb : C -> bytes -> C * Z) fc bs a o a' tr st,
-  Ainv a -> api_step cb fc bs a o = (a', tr, st) -> Ainv a'.
+Lemma api_step_Ainv : forall {C} (cb : C -> bytes -> C * Z) fm bs a o a' tr st,
+  Ainv a -> api_step cb fm bs a o = (a', tr, st) -> Ainv a'.
 Proof.
-  intros C cb fc bs a o a' tr st I H. unfold Ainv in *.
+  intros C cb fm bs a o a' tr st I H. unfold Ainv in *.
   destruct o; cbn [api_step] in H; unfold api_close, api_close_core, bad_state, set_state in H;
     destruct (a_state a) eqn:Es; api_case H; inversion H; subst; clear H;
     cbn [a_state a_fopen]; rewrite ?Es; intros [K|K]; try discriminate; try reflexivity;
@@ -1149,45 +1150,48 @@ Qed.
 
 (* only archive_write_free changes the leak flag, and only in state FATAL with the client filter
    still open *)
-Lemma api_step_leaked : forall {C} (cb : C -> bytes -> C * Z) fc bs a o a' tr st,
-  api_step cb fc bs a o = (a', tr, st) ->
+Lemma api_step_leaked : forall {C} (cb : C -> bytes -> C * Z) fm bs a o a' tr st,
+  api_step cb fm bs a o = (a', tr, st) ->
   a_leaked a' = match o, a_state a with
-                | OFree, SFatal => a_leaked a || (a_fopen a && negb fc)
+                | OFree, SFatal => a_leaked a || (a_fopen a && match fm with FreeSkips => true | _ => false end)
                 | _, _ => a_leaked a
                 end.
 Proof.
-  intros C cb fc bs a o a' tr st H.
+  intros C cb fm bs a o a' tr st H.
   destruct o; cbn [api_step] in H; unfold api_close, api_close_core, bad_state, set_state in H;
     destruct (a_state a) eqn:Es; api_case H; inversion H; subst; clear H; cbn [a_leaked];
-    try reflexivity; destruct fc, (a_fopen a), (a_leaked a); try reflexivity; discriminate.
+    try reflexivity;
+    repeat match goal with E : a_fopen _ = _ |- _ => rewrite E end;
+    cbn [andb]; rewrite ?andb_false_r, ?orb_false_r, ?andb_true_r; try reflexivity;
+    match goal with |- context [a_leaked ?x] => destruct (a_leaked x) end; reflexivity.
 Qed.
 
-Lemma api_close_not_open : forall {C} (cb : C -> bytes -> C * Z) fc bs a a' tr st,
-  Ainv a -> api_step cb fc bs a OClose = (a', tr, st) -> a_fopen a' = false.
+Lemma api_close_not_open : forall {C} (cb : C -> bytes -> C * Z) fm bs a a' tr st,
+  Ainv a -> api_step cb fm bs a OClose = (a', tr, st) -> a_fopen a' = false.
 Proof.
-  intros C cb fc bs a a' tr st I H. unfold Ainv in I.
+  intros C cb fm bs a a' tr st I H. unfold Ainv in I.
   cbn [api_step] in H; unfold api_close, api_close_core, set_state in H;
     destruct (a_state a) eqn:Es; api_case H; inversion H; subst; clear H; cbn [a_fopen];
     try reflexivity; try assumption; apply I; auto.
 Qed.
 
-Lemma api_run_Ainv : forall {C} (cb : C -> bytes -> C * Z) fc bs ops a a' res,
-  Ainv a -> api_run cb fc bs a ops = (a', res) -> Ainv a'.
+Lemma api_run_Ainv : forall {C} (cb : C -> bytes -> C * Z) fm bs ops a a' res,
+  Ainv a -> api_run cb fm bs a ops = (a', res) -> Ainv a'.
 Proof.
-  intros C cb fc bs. induction ops as [|o ops IH]; intros a a' res I H; cbn [api_run] in H.
+  intros C cb fm bs. induction ops as [|o ops IH]; intros a a' res I H; cbn [api_run] in H.
   - inversion H; subst. assumption.
-  - destruct (api_step cb fc bs a o) as [[a1 tr] st] eqn:E1.
-    destruct (api_run cb fc bs a1 ops) as [a2 r2] eqn:E2. inversion H; subst.
+  - destruct (api_step cb fm bs a o) as [[a1 tr] st] eqn:E1.
+    destruct (api_run cb fm bs a1 ops) as [a2 r2] eqn:E2. inversion H; subst.
     eapply IH; [|eassumption]. eapply api_step_Ainv; eassumption.
 Qed.
 
-Lemma api_run_leaked : forall {C} (cb : C -> bytes -> C * Z) fc bs ops a a' res,
-  ~ In OFree ops -> api_run cb fc bs a ops = (a', res) -> a_leaked a' = a_leaked a.
+Lemma api_run_leaked : forall {C} (cb : C -> bytes -> C * Z) fm bs ops a a' res,
+  ~ In OFree ops -> api_run cb fm bs a ops = (a', res) -> a_leaked a' = a_leaked a.
 Proof.
-  intros C cb fc bs. induction ops as [|o ops IH]; intros a a' res N H; cbn [api_run] in H.
+  intros C cb fm bs. induction ops as [|o ops IH]; intros a a' res N H; cbn [api_run] in H.
   - inversion H; subst. reflexivity.
-  - destruct (api_step cb fc bs a o) as [[a1 tr] st] eqn:E1.
-    destruct (api_run cb fc bs a1 ops) as [a2 r2] eqn:E2. inversion H; subst.
+  - destruct (api_step cb fm bs a o) as [[a1 tr] st] eqn:E1.
+    destruct (api_run cb fm bs a1 ops) as [a2 r2] eqn:E2. inversion H; subst.
     rewrite (IH _ _ _ (fun K => N (or_intror K)) E2). rewrite (api_step_leaked _ _ _ _ _ _ _ _ E1).
     destruct o; try reflexivity. exfalso. apply N. left. reflexivity.
 Qed.
@@ -1200,43 +1204,118 @@ Qed.
 
 (* close before free: whatever happened before (failed callbacks, misuse, FATAL state), the
    client filter is released *)
-Theorem close_then_free_no_leak : forall {C} (cb : C -> bytes -> C * Z) fc bs bibl oret fb c ops a' res,
+Theorem close_then_free_no_leak : forall {C} (cb : C -> bytes -> C * Z) fm bs bibl oret fb c ops a' res,
   ~ In OFree ops ->
-  api_run cb fc bs (fst (api_open bibl oret fb c)) (ops ++ [OClose; OFree]) = (a', res) ->
+  api_run cb fm bs (fst (api_open bibl oret fb c)) (ops ++ [OClose; OFree]) = (a', res) ->
   a_leaked a' = false.
 Proof.
-  intros C cb fc bs bibl oret fb c ops a' res N H.
-  assert (Happ : forall l1 l2 (a : @api C), api_run cb fc bs a (l1 ++ l2) =
-            let '(a1, r1) := api_run cb fc bs a l1 in
-            let '(a2, r2) := api_run cb fc bs a1 l2 in (a2, r1 ++ r2)).
+  intros C cb fm bs bibl oret fb c ops a' res N H.
+  assert (Happ : forall l1 l2 (a : @api C), api_run cb fm bs a (l1 ++ l2) =
+            let '(a1, r1) := api_run cb fm bs a l1 in
+            let '(a2, r2) := api_run cb fm bs a1 l2 in (a2, r1 ++ r2)).
   { induction l1 as [|o l1 IH]; intros l2 a.
-    - cbn [app api_run]. destruct (api_run cb fc bs a l2). reflexivity.
-    - cbn [app api_run]. destruct (api_step cb fc bs a o) as [[a1 tr] st]. rewrite IH.
-      destruct (api_run cb fc bs a1 l1) as [a2 r1]. destruct (api_run cb fc bs a2 l2) as [a3 r2]. reflexivity. }
-  rewrite Happ in H. destruct (api_run cb fc bs (fst (api_open bibl oret fb c)) ops) as [a1 r1] eqn:E1.
+    - cbn [app api_run]. destruct (api_run cb fm bs a l2). reflexivity.
+    - cbn [app api_run]. destruct (api_step cb fm bs a o) as [[a1 tr] st]. rewrite IH.
+      destruct (api_run cb fm bs a1 l1) as [a2 r1]. destruct (api_run cb fm bs a2 l2) as [a3 r2]. reflexivity. }
+  rewrite Happ in H. destruct (api_run cb fm bs (fst (api_open bibl oret fb c)) ops) as [a1 r1] eqn:E1.
   pose proof (api_run_Ainv _ _ _ _ _ _ _ (api_open_Ainv bibl oret fb c) E1) as I1.
   pose proof (api_run_leaked _ _ _ _ _ _ _ N E1) as L1.
   assert (L0 : a_leaked (fst (api_open bibl oret fb c)) = false).
   { unfold api_open. destruct (oret =? ARCHIVE_OK); [reflexivity|]. destruct (oret <? ARCHIVE_WARN); reflexivity. }
   cbn [api_run] in H.
-  destruct (api_step cb fc bs a1 OClose) as [[a2 tr2] st2] eqn:E2.
-  destruct (api_step cb fc bs a2 OFree) as [[a3 tr3] st3] eqn:E3.
+  destruct (api_step cb fm bs a1 OClose) as [[a2 tr2] st2] eqn:E2.
+  destruct (api_step cb fm bs a2 OFree) as [[a3 tr3] st3] eqn:E3.
   inversion H; subst.
   rewrite (api_step_leaked _ _ _ _ _ _ _ _ E3), (api_close_not_open _ _ _ _ _ _ _ I1 E2).
   rewrite (api_step_leaked _ _ _ _ _ _ _ _ E2), L1, L0. destruct (a_state a2); reflexivity.
 Qed.
 
-(* if archive_write_client_free releases a client that is still open, no call sequence leaks *)
-Theorem client_free_closes_no_leak : forall {C} (cb : C -> bytes -> C * Z) bs ops a a' res,
-  api_run cb true bs a ops = (a', res) -> a_leaked a' = a_leaked a.
+(* unless archive_write_free skips everything in state FATAL, no call sequence leaks *)
+Theorem free_no_leak : forall {C} (cb : C -> bytes -> C * Z) fm bs ops a a' res,
+  fm <> FreeSkips -> api_run cb fm bs a ops = (a', res) -> a_leaked a' = a_leaked a.
 Proof.
-  intros C cb bs. induction ops as [|o ops IH]; intros a a' res H; cbn [api_run] in H.
+  intros C cb fm bs ops a a' res Hm. revert a a' res.
+  induction ops as [|o ops IH]; intros a a' res H; cbn [api_run] in H.
   - inversion H; subst. reflexivity.
-  - destruct (api_step cb true bs a o) as [[a1 tr] st] eqn:E1.
-    destruct (api_run cb true bs a1 ops) as [a2 r2] eqn:E2. inversion H; subst.
+  - destruct (api_step cb fm bs a o) as [[a1 tr] st] eqn:E1.
+    destruct (api_run cb fm bs a1 ops) as [a2 r2] eqn:E2. inversion H; subst.
     rewrite (IH _ _ _ E2), (api_step_leaked _ _ _ _ _ _ _ _ E1).
-    destruct o, (a_state a); try reflexivity. cbn [negb]. rewrite andb_false_r, orb_false_r. reflexivity.
+    destruct o, (a_state a); try reflexivity.
+    destruct fm; [congruence| |]; rewrite andb_false_r, orb_false_r; reflexivity.
 Qed.
+
+(* the client close callback: called at most once, and exactly once by the time the handle has
+   been freed, whenever the open callback had succeeded *)
+Definition Cinv {C} (a : @api C) : Prop :=
+  (a_fopen a = true /\ a_closer a = 0%nat) \/ (a_fopen a = false /\ a_closer a = 1%nat).
+
+Lemma api_step_Cinv : forall {C} (cb : C -> bytes -> C * Z) fm bs a o a' tr st,
+  fm <> FreeSkips -> Cinv a -> api_step cb fm bs a o = (a', tr, st) -> Cinv a'.
+Proof.
+  intros C cb fm bs a o a' tr st Hm I H. unfold Cinv in *.
+  destruct o; cbn [api_step] in H; unfold api_close, api_close_core, bad_state, set_state in H;
+    destruct (a_state a) eqn:Es; api_case H; try congruence; inversion H; subst; clear H;
+    cbn [a_fopen a_closer]; try assumption;
+    repeat match goal with E : negb _ = false |- _ => apply negb_false_iff in E end;
+    repeat match goal with E : a_fopen _ = _ |- _ => rewrite E in * end;
+    destruct I as [[I1 I2] | [I1 I2]]; try discriminate; rewrite ?I2; auto.
+Qed.
+
+Lemma api_run_Cinv : forall {C} (cb : C -> bytes -> C * Z) fm bs ops a a' res,
+  fm <> FreeSkips -> Cinv a -> api_run cb fm bs a ops = (a', res) -> Cinv a'.
+Proof.
+  intros C cb fm bs ops a a' res Hm. revert a a' res.
+  induction ops as [|o ops IH]; intros a a' res I H; cbn [api_run] in H.
+  - inversion H; subst. assumption.
+  - destruct (api_step cb fm bs a o) as [[a1 tr] st] eqn:E1.
+    destruct (api_run cb fm bs a1 ops) as [a2 r2] eqn:E2. inversion H; subst.
+    eapply IH; [|eassumption]. eapply api_step_Cinv; eassumption.
+Qed.
+
+Lemma api_free_not_open : forall {C} (cb : C -> bytes -> C * Z) fm bs a a' tr st,
+  fm <> FreeSkips -> Ainv a -> api_step cb fm bs a OFree = (a', tr, st) -> a_fopen a' = false.
+Proof.
+  intros C cb fm bs a a' tr st Hm I H. unfold Ainv in I.
+  cbn [api_step] in H; unfold api_close, api_close_core, set_state in H;
+    destruct (a_state a) eqn:Es; api_case H; try congruence; inversion H; subst; clear H; cbn [a_fopen];
+    try reflexivity; try assumption; apply I; auto.
+Qed.
+
+(* any call sequence ending with free, after a successful open: nothing leaks, the client filter
+   is closed and the client close callback has been invoked exactly once *)
+Theorem free_releases_client : forall {C} (cb : C -> bytes -> C * Z) fm bs bibl fb c ops a' res,
+  fm <> FreeSkips ->
+  api_run cb fm bs (fst (api_open bibl ARCHIVE_OK fb c)) (ops ++ [OFree]) = (a', res) ->
+  a_leaked a' = false /\ a_fopen a' = false /\ a_closer a' = 1%nat.
+Proof.
+  intros C cb fm bs bibl fb c ops a' res Hm H.
+  assert (Happ : forall l1 l2 (a : @api C), api_run cb fm bs a (l1 ++ l2) =
+            let '(a1, r1) := api_run cb fm bs a l1 in
+            let '(a2, r2) := api_run cb fm bs a1 l2 in (a2, r1 ++ r2)).
+  { induction l1 as [|o l1 IH]; intros l2 a.
+    - cbn [app api_run]. destruct (api_run cb fm bs a l2). reflexivity.
+    - cbn [app api_run]. destruct (api_step cb fm bs a o) as [[a1 tr] st]. rewrite IH.
+      destruct (api_run cb fm bs a1 l1) as [a2 r1]. destruct (api_run cb fm bs a2 l2) as [a3 r2]. reflexivity. }
+  pose proof (free_no_leak _ _ _ _ _ _ _ Hm H) as L.
+  rewrite Happ in H.
+  destruct (api_run cb fm bs (fst (api_open bibl ARCHIVE_OK fb c)) ops) as [a1 r1] eqn:E1.
+  assert (E0 : fst (api_open bibl ARCHIVE_OK fb c) =
+               mkApi SHeader true [] (if fb && (bibl =? -1) then 1 else bibl) 0 0 false c) by reflexivity.
+  pose proof (api_run_Ainv _ _ _ _ _ _ _ (api_open_Ainv bibl ARCHIVE_OK fb c) E1) as I1.
+  assert (C1 : Cinv a1).
+  { eapply api_run_Cinv; [exact Hm | | exact E1]. rewrite E0. left. split; reflexivity. }
+  cbn [api_run] in H. destruct (api_step cb fm bs a1 OFree) as [[a2 tr2] st2] eqn:E2.
+  inversion H; subst a' res. clear H.
+  pose proof (api_free_not_open _ _ _ _ _ _ _ Hm I1 E2) as F2.
+  pose proof (api_step_Cinv _ _ _ _ _ _ _ _ Hm C1 E2) as C2.
+  split; [rewrite L, E0; reflexivity|]. split; [assumption|].
+  destruct C2 as [[K _] | [_ K]]; [congruence | assumption].
+Qed.
+
+(* the current tree: free on a handle in state FATAL is the filters-close path, status = worst *)
+Lemma free_in_fatal_is_close : forall {C} (cb : C -> bytes -> C * Z) bs a,
+  a_state a = SFatal -> api_step cb FreeClosesFilters bs a OFree = api_close_core cb bs a.
+Proof. intros C cb bs a H. cbn [api_step]. rewrite H. reflexivity. Qed.
 
 (* the scripted callback with an empty plan, stated without the abstract [Good] *)
 Theorem session_acc_plan : forall bs bibl chunks pl' res,
